@@ -695,12 +695,14 @@ class Session:
                 ctx.fail('I07.writeback', f'get_beta_values()[{nm}]={gbv[nm]!r} after estimation, estimate {est[nm]!r}')
         # (5) stationarity when convergence is reported (gradient from finite differences of the reference)
         if r.algorithm_has_converged():
-            self._stationary(algo, x, table, want)
+            msgs = getattr(r.data, 'optimizationMessages', None) or {}
+            self._stationary(algo, x, table, want, f0=r.data.initLogLike, said={k_: str(msgs[k_]) for k_ in ('Cause of termination', 'Relative gradient',
+                                                                               'Number of iterations') if k_ in msgs})
         ctx.log('ESTIMATE', algo, boot, fhex(r.data.logLike), bool(r.algorithm_has_converged()))
         rec['estimated'] = True
         return r
 
-    def _stationary(self, algo, x, table, f):
+    def _stationary(self, algo, x, table, f, f0=None, said=None):
         ctx = self.ctx
         g = self._fd_grad(x, table)
         tol = 10 * 1.2207e-4
@@ -712,13 +714,15 @@ class Session:
             # projected-gradient measure (the criterion bound-constrained algorithms report): how far
             # a unit ascent step could move inside the bounds
             step = min(max(v + g[nm], lo), hi) - v
-            rel = abs(step) * max(1.0, abs(v)) / max(1.0, abs(f))
+            # the optimisation package fixes its "typical value" of the objective at the first point it sees: the
+            # denominator of its relative gradient is max(|f(x)|, |f(x0)|, 1)
+            rel = abs(step) * max(1.0, abs(v)) / max(1.0, abs(f), abs(float(f0)) if f0 is not None else 0.0)
             if step != g[nm]:
                 ctx.probe('bound active (or nearly) at the returned estimates')
             if rel > tol:
                 ctx.fail('I07.stationary', f'[{algo}] convergence reported but the likelihood still increases along {nm}: '
                                            f'dLL/d{nm}={g[nm]!r}, feasible ascent step {step!r} (relative {rel!r} > {tol!r}), '
-                                           f'bounds {bd}')
+                                           f'bounds {bd}; the optimiser said {said}')
 
     def estimate_all(self):
         ctx = self.ctx
@@ -738,7 +742,7 @@ class Session:
                       float(r.data.logLike), want, oracle='I07.recompute')
             if r.algorithm_has_converged():
                 res[algo] = float(r.data.logLike)
-                self._stationary(algo, x, rec['table'], want)
+                self._stationary(algo, x, rec['table'], want, f0=r.data.initLogLike)
         groups = [[a for a in res if a in BOUNDED], [a for a in res if a not in BOUNDED]]
         any_bounds = any(bd for bd in (self.cfg.get('bounds') or []))
         if not self.active_planned:
